@@ -19,7 +19,7 @@ cmd := T:<platform>:<region>:<debug>:<version>:<deleted>:<seek>
      | FA:<off>:<exp>:<path>:<block>;<block>;…  (block := r<content> | z<compressed hex>_<content>; `-` = none)
      | FD:<exp>:<path> | FR:<exp>:<path> | FM:<exp>:<path>
 ```
-`cmds=-` is the empty list.  The answer's input field is `<api> <patch hex> …` — the patches
+`<path>` is written as in `Base/FsText.lean` (`%20` = space, …).  `cmds=-` is the empty list.  The answer's input field is `<api> <patch hex> …` — the patches
 encoded by `Spec.ZiPatch.encodePatch` (the harness takes the start tree from the case line).
 
 `applybig api=<…> tree=<tree> cmds=<cmd>,… [cmds=<cmd>,… …]` — same grammar, same encoder, for command
@@ -62,8 +62,11 @@ def parseBlock (s : String) : Option Block :=
     | _ => none
   else none
 
+/-- the path of a file operation: text as in `FsText` (`%hh` escapes for the bytes that are not
+letters, digits, `.`, `_`, `-`, `/`), any arrangement of `/` (a path outside `pathOk` is a legitimate
+case: it is outside `WFseq` and compared with the model only) -/
 def pathBytes (s : String) : Option Bytes :=
-  if s.isEmpty then none else some (Bytes.ofString s)
+  if s.isEmpty then none else pathText? s
 
 def parseCmd (s : String) : Option Cmd :=
   match s.splitOn ":" with
